@@ -676,4 +676,13 @@ theorem sec_answer_is_on_curve (g : CurveGroup) (pSize : ℕ) (hybrid : Bool) (b
     (hbr : g.p % 4 = 3 ∨ g.p % 8 = 5) (h : pointFromOctets g pSize hybrid b = .ok Q) :
     Q.2 ≠ 0 ∧ isOnCurveX g Q = some true := pointFromOctets_on_curve g pSize hybrid b Q hbr h
 
+/-- **cofactor one PROVED on the toy curve** `y² = x³ + 7` over `F₄₃` (31 points): every point has order dividing `n`
+— the PROVED double-and-add run on all 43² coordinate pairs by the kernel -/
+theorem toy_cofactor_one : ∀ g : Pt 43 Toy.toyC.toCurveGroup, Toy.toyC.n • g = 0 := Toy.toy_hcof
+
+/-- a fully discharged instance of the cofactor-one transfer: no hypothesis left on the toy curve -/
+example : OpsHom (opsSub Toy.toyOk) (EC.ops Toy.toyC) (Subtype.val : SubPt 43 Toy.toyC → Point) := Toy.toy_opsHom
+example (x : ℤ) : ((opsSub Toy.toyOk).liftX x).map Subtype.val = (EC.ops Toy.toyC).liftX x :=
+  ops_sub_liftX_is_ec_ops Toy.toyOk (by decide) Toy.toy_hcof Toy.toy_delta x
+
 end Props.C01
